@@ -160,17 +160,29 @@ def build(spec, world, own=None, form=None, own_op=None):
     if k == "tevo":
         return qib.TimeEvolutionGate(build_op(spec["h"], world, own_op), float(spec["t"]))
     if k == "prep":
-        g = qib.PrepareGate(keep(np.array(spec["vec"], dtype=float), "prep"), spec["n"], bool(spec["tr"]))
+        g = qib.PrepareGate(keep(np.array(spec["vec"], dtype=spec.get("dtype", float)), "prep"), spec["n"], bool(spec["tr"]))
         if spec["q"] is not None:
             g.on([world.q(i) for i in spec["q"]])
         return g
     if k == "gen":
-        M = keep(np.array([[complex(a, b) for a, b in row] for row in spec["mat"]]), "gen")
+        M = np.array([[complex(a, b) for a, b in row] for row in spec["mat"]])
+        if spec.get("dtype"):                  # element type of the user's matrix (default complex128): int64, bool, float32 ...
+            M = cast_matrix(M, spec["dtype"])
+        M = keep(M, "gen")
         g = qib.GeneralGate(M, spec["n"])
         if spec["q"] is not None:
             g.on([world.q(i) for i in spec["q"]])
         return g
     raise ValueError(k)
+
+
+def cast_matrix(M, dtype):
+    """the complex matrix M as an array of the named dtype (which must hold its entries exactly)"""
+    dt = np.dtype(dtype)
+    out = M.astype(dt) if dt.kind == "c" else np.ascontiguousarray(M.real).astype(dt)
+    if dt.kind != "c" and np.any(M.imag != 0) or not np.array_equal(out.astype(complex), M):
+        raise ValueError("dtype %s cannot hold the matrix" % dtype)
+    return out
 
 
 def nqubits_of(spec):
@@ -1029,6 +1041,7 @@ def run(ctx, pid):
     history_checks(ctx, pid)
     generator_checks(ctx, pid)
     layout_checks(ctx, pid)
+    mixed_dtype_checks(ctx, pid)
     object_history_checks(ctx, pid)
     if pid == "C02":
         wide_control_checks(ctx)
@@ -2482,6 +2495,236 @@ def object_history_checks(ctx, pid):
     constructor_array_checks(ctx, pid)
 
 
+# =============================================================================== mixed element types inside one composite
+# A composite assembles the matrices its parts report into ONE array.  The parts' arrays have different element types: user
+# matrices of int / bool / float32 / complex64 entries (GeneralGate keeps the dtype it is given), float64 for H, Ry,
+# PrepareGate, the real Pauli gates, complex128 for S, T, Y, Rz ...  An assembly that allocates its result from ONE part (the
+# first, the last) and copies the others into it truncates (1/sqrt2 -> 0 in an int array), drops imaginary parts or wraps
+# around.  So: multiplexers over targets of every pair / triple / quadruple of element types in EVERY order (1-3 controls, one-
+# and two-qubit targets, composite targets), controlled gates over each, nesting, inverse(), and circuits of such gates.
+TYPED_MATS = {
+    "X": [[0, 1], [1, 0]], "Z": [[1, 0], [0, -1]], "I": [[1, 0], [0, 1]], "iY": [[0, 1], [-1, 0]], "-X": [[0, -1], [-1, 0]],
+    "rot": [[0.6, -0.8], [0.8, 0.6]], "refl": [[0.28, 0.96], [0.96, -0.28]], "Y": [[0, -1j], [1j, 0]], "S": [[1, 0], [0, 1j]],
+    "SWAP": [[1, 0, 0, 0], [0, 0, 1, 0], [0, 1, 0, 0], [0, 0, 0, 1]], "CNOT": [[1, 0, 0, 0], [0, 1, 0, 0], [0, 0, 0, 1], [0, 0, 1, 0]],
+    "SHIFT": [[0, 0, 0, 1], [1, 0, 0, 0], [0, 1, 0, 0], [0, 0, 1, 0]], "mSWAP": [[1, 0, 0, 0], [0, 0, -1, 0], [0, 1, 0, 0], [0, 0, 0, -1]],
+    "iSWAPm": [[1, 0, 0, 0], [0, 0, 1j, 0], [0, 1j, 0, 0], [0, 0, 0, 1]],
+}
+
+
+def typed_gen(name, dtype, q):
+    M = TYPED_MATS[name]
+    return {"k": "gen", "n": len(q), "dtype": dtype, "q": list(q),
+            "mat": [[[float(np.real(c)), float(np.imag(c))] for c in row] for row in M]}
+
+
+def typed_pool(q):
+    """one-qubit targets on qubit list q by element type of the matrix they report (category -> list of specs)"""
+    return {
+        "int": [typed_gen("X", "int64", q), typed_gen("iY", "int64", q), typed_gen("Z", "int8", q), typed_gen("X", "uint8", q),
+                typed_gen("-X", "int32", q), typed_gen("I", "int16", q)],
+        "bool": [typed_gen("X", "bool", q), typed_gen("I", "bool", q)],
+        "lowfloat": [typed_gen("X", "float32", q), typed_gen("Z", "float32", q), typed_gen("iY", "float32", q)],
+        "realfrac": [_leaf("H", q), _leaf("Ry", q, [0.3]), {"k": "prep", "n": 1, "vec": [0.2, -0.8], "tr": False, "q": list(q)},
+                     typed_gen("rot", "float64", q), _leaf("Ry", q, [-1.1]), {"k": "prep", "n": 1, "vec": [0.5, 0.5], "tr": True, "q": list(q)},
+                     typed_gen("refl", "longdouble", q)],
+        "realint": [_leaf("X", q), _leaf("Z", q), typed_gen("iY", "float64", q), _leaf("I", q)],
+        "complex": [_leaf("S", q), _leaf("Rz", q, [0.4]), _leaf("Y", q), _leaf("T", q), _leaf("Rx", q, [0.7]), _leaf("Rot", q, [0.3, -0.4, 1.2]),
+                    _leaf("Sx", q)],
+        "complex64": [typed_gen("Y", "complex64", q), typed_gen("S", "complex64", q)],
+    }
+
+
+def typed_pool2(q, c):
+    """two-wire targets (q = two qubits; c = an inner control qubit + target for the composite ones)"""
+    return {
+        "int": [typed_gen("SWAP", "int64", q), typed_gen("SHIFT", "int8", q), typed_gen("mSWAP", "int32", q)],
+        "bool": [typed_gen("CNOT", "bool", q), typed_gen("SWAP", "bool", q)],
+        "lowfloat": [typed_gen("mSWAP", "float32", q), typed_gen("SHIFT", "float32", q)],
+        "realfrac": [{"k": "ctrl", "pat": [1], "cq": [c[0]], "g": _leaf("H", [c[1]])},
+                     {"k": "ctrl", "pat": [0], "cq": [c[0]], "g": _leaf("Ry", [c[1]], [2.0])},
+                     {"k": "prep", "n": 2, "vec": [0.1, -0.2, 0.3, 0.4], "tr": False, "q": list(q)},
+                     {"k": "mux", "nc": 1, "cq": [c[0]], "gs": [_leaf("H", [c[1]]), _leaf("Ry", [c[1]], [2.0])]}],
+        "realint": [{"k": "ctrl", "pat": [1], "cq": [c[0]], "g": _leaf("X", [c[1]])},
+                    {"k": "mux", "nc": 1, "cq": [c[0]], "gs": [typed_gen("X", "int64", [c[1]]), typed_gen("iY", "int64", [c[1]])]}],
+        # (ISwap / Rzz leaves are not mixed with user matrices here: their fields() lists the field once per qubit, a GeneralGate's
+        #  once, and MultiplexedGate.fields() asserts equality - recorded in notes/gates_comp.md, a loud refusal, not a wrong matrix)
+        "complex": [typed_gen("iSWAPm", "complex128", q), {"k": "ctrl", "pat": [0], "cq": [c[0]], "g": _leaf("Rz", [c[1]], [0.4])},
+                    {"k": "ctrl", "pat": [1], "cq": [c[0]], "g": _leaf("S", [c[1]])}, typed_gen("iSWAPm", "complex64", q)],
+    }
+
+
+def mixed_dtype_inputs(thorough):
+    """deterministic (no PRNG); every input {"comp", "what": "mixed-dtype", "nq", "gates": [bound tree specs]}"""
+    out = []
+    pick = [0]
+
+    def take(pool, cat):
+        pick[0] += 1
+        lst = pool[cat]
+        return lst[pick[0] % len(lst)]
+
+    def emit(*specs):
+        out.append({"comp": True, "what": "mixed-dtype", "nq": max(nqubits_of(s) for s in specs), "gates": list(specs)})
+
+    cats = ["int", "bool", "lowfloat", "realfrac", "realint", "complex", "complex64"]
+    # (a) one control: every ordered pair of element types (both members of a category pair rotate through its representatives)
+    P1 = typed_pool([1])
+    for a in cats:
+        for b in cats:
+            if a == b and a not in ("int", "realfrac"):
+                continue
+            for rep in range(len(P1[a]) * len(P1[b]) if thorough else 1):
+                emit({"k": "mux", "nc": 1, "cq": [0], "gs": [take(P1, a), take(P1, b)]})
+    # (b) two controls: an integer-typed / bool / single-precision first block, then every ORDER of three further types;
+    #     and the integer-typed block at every later position
+    P2 = typed_pool([2])
+    first = ["int", "bool", "lowfloat"] + (["realint", "realfrac", "complex64"] if thorough else [])
+    rest_sets = [("realfrac", "complex", "int"), ("realfrac", "realfrac", "complex"), ("bool", "realfrac", "complex64"),
+                 ("realint", "lowfloat", "realfrac"), ("realfrac", "realfrac", "realfrac"), ("complex", "realfrac", "realfrac")]
+    for f in first:
+        for k, rs in enumerate(rest_sets):
+            perms = sorted(set(itertools.permutations(rs)))
+            if not thorough:
+                perms = perms[(k % 2)::2] if len(perms) > 2 else perms
+            for perm in perms:
+                emit({"k": "mux", "nc": 2, "cq": [0, 1], "gs": [take(P2, f)] + [take(P2, c) for c in perm]})
+    for pos in range(4):
+        gs = [take(P2, "realfrac") for _ in range(4)]
+        gs[pos] = take(P2, "int")
+        emit({"k": "mux", "nc": 2, "cq": [1, 0], "gs": gs})
+    # (c) three controls: eight blocks, the only non-integer real block at every index behind an integer-typed first block; all types
+    P3 = typed_pool([3])
+    for pos in (range(1, 8) if thorough else (1, 4, 7)):
+        gs = [take(P3, "int") if i % 2 == 0 else take(P3, "bool") for i in range(8)]
+        gs[pos] = take(P3, "realfrac")
+        emit({"k": "mux", "nc": 3, "cq": [0, 1, 2], "gs": gs})
+    emit({"k": "mux", "nc": 3, "cq": [2, 0, 1], "gs": [take(P3, c) for c in cats] + [take(P3, "realfrac")]})
+    emit({"k": "mux", "nc": 3, "cq": [0, 1, 2], "gs": [take(P3, c) for c in reversed(cats)] + [take(P3, "int")]})
+    # (d) two-wire targets: user-defined integer permutations next to controlled-H / controlled-Ry / preparations / multiplexers
+    Q = typed_pool2([1, 2], [1, 2])
+    cats2 = list(Q)
+    for a in cats2:
+        for b in cats2:
+            if a == b and a != "int":
+                continue
+            emit({"k": "mux", "nc": 1, "cq": [0], "gs": [take(Q, a), take(Q, b)]})
+    Q3 = typed_pool2([2, 3], [2, 3])
+    for k, perm in enumerate(itertools.permutations(("int", "realfrac", "complex", "bool"))):
+        if thorough or k % 3 == 0:
+            emit({"k": "mux", "nc": 2, "cq": [0, 1], "gs": [take(Q3, c) for c in perm]})
+    # (e) controlled gates (1, 2 controls; active on 0 / 1) over every element type, and around mixed multiplexers; nesting
+    P0 = typed_pool([0])
+    for k, c in enumerate(cats):
+        for rep in range(len(P0[c]) if thorough else 2):
+            emit({"k": "ctrl", "pat": [k % 2], "cq": [1], "g": take(P0, c)})
+        emit({"k": "ctrl", "pat": [1, k % 2], "cq": [2, 1], "g": take(P0, c)})
+    for a, b in (("int", "realfrac"), ("bool", "realfrac"), ("realfrac", "int"), ("int", "complex"), ("lowfloat", "realfrac")):
+        inner = {"k": "mux", "nc": 1, "cq": [1], "gs": [take(P2, a), take(P2, b)]}
+        emit({"k": "ctrl", "pat": [0], "cq": [0], "g": inner})
+        emit({"k": "ctrl", "pat": [1], "cq": [0], "default_state": True, "g": inner})
+    emit({"k": "ctrl", "pat": [0], "cq": [0], "g": {"k": "mux", "nc": 1, "cq": [1], "gs": [take(Q3, "int"), take(Q3, "realfrac")]}})
+    for a, b in (("int", "realfrac"), ("realfrac", "int"), ("bool", "complex"), ("int", "lowfloat")):
+        emit({"k": "mux", "nc": 1, "cq": [0], "gs": [{"k": "mux", "nc": 1, "cq": [1], "gs": [take(P2, a), take(P2, a)]},
+                                                      {"k": "mux", "nc": 1, "cq": [1], "gs": [take(P2, b), take(P2, b)]}]})
+    # (f) circuits of gates of different element types on overlapping wires, in every order
+    trio = [("int", "realfrac", "complex"), ("bool", "lowfloat", "realfrac"), ("int", "int", "realfrac"), ("complex64", "int", "realfrac")]
+    for t in trio:
+        for k, perm in enumerate(sorted(set(itertools.permutations(range(3))))):
+            if not thorough and k % 2:
+                continue
+            g0 = take(typed_pool([0]), t[0])
+            g1 = {"k": "mux", "nc": 1, "cq": [2], "gs": [take(typed_pool([1]), t[1]), take(typed_pool([1]), t[2])]}
+            g2 = take(typed_pool2([2, 0], [2, 0]), t[0] if t[0] in ("int", "bool") else "int")
+            gs = [g0, g1, g2]
+            emit(*[gs[i] for i in perm])
+    return out
+
+
+def embed_on_wires(U, wires, nw):
+    """numpy reference: U acting on `wires` (first = most significant index of U) of an nw-wire register, identity elsewhere"""
+    m = len(wires)
+    rest = [w for w in range(nw) if w not in wires]
+    T = np.kron(U, np.eye(2 ** (nw - m))).reshape((2,) * (2 * nw))
+    inv = [int(i) for i in np.argsort(list(wires) + rest)]
+    return T.transpose(inv + [nw + i for i in inv]).reshape((2 ** nw, 2 ** nw))
+
+
+def check_mixed_dtype(ctx, pid, inp):
+    import qib
+    world = World(inp["nq"])
+    try:
+        gates = [build(s, world) for s in inp["gates"]]
+    except Exception as e:
+        ctx.fail("mixed-dtype:construction-raises", inp, "gates", repr(e)[:200])
+        return
+    I = lambda M: np.eye(M.shape[0])
+    for i, (s, g) in enumerate(zip(inp["gates"], gates)):
+        where = dict(inp, gate=i) if len(gates) > 1 else inp
+
+        def fail(sig, expected, observed):
+            ctx.fail("mixed-dtype:" + sig, where, expected, observed)
+        try:
+            oracle(ctx, pid, s, g, world, fail)
+            inv = g.inverse()
+            Ui = dense(inv.as_matrix())
+            if pid == "C01" and (Ui.shape != (2 ** g.num_wires,) * 2 or maxerr(Ui @ Ui.conj().T, I(Ui)) > TOL or not inv.is_unitary()):
+                fail("inverse().as_matrix:not-unitary:" + s["k"], "unitary of size 2^num_wires", maxerr(Ui @ Ui.conj().T, I(Ui)))
+            if pid == "C02" and maxerr(Ui, ref_matrix(g, s).conj().T) > TOL:
+                fail("inverse().as_matrix:differs-from-adjoint-of-the-reference:" + s["k"], "adjoint of the bitwise reference",
+                     maxerr(Ui, ref_matrix(g, s).conj().T))
+            if pid == "C16" and inv.is_hermitian() and maxerr(Ui, Ui.conj().T) > TOL:
+                fail("inverse().is_hermitian:true-but-matrix-not-hermitian:" + s["k"], "U = U^dagger", maxerr(Ui, Ui.conj().T))
+        except Exception as e:
+            ctx.fail("mixed-dtype:oracle-raises:" + s["k"], where, "matrix / inverse / flags evaluate", repr(e)[:300])
+            return
+    if len(gates) < 2:
+        return
+    try:
+        fields = list(world.order)
+        off, o = {}, 0
+        for k, f in enumerate(fields):
+            off[k] = o
+            o += f.lattice.nsites
+        nw = o
+        R = np.eye(2 ** nw, dtype=complex)
+        for i, g in enumerate(gates):
+            wires = [off[world.num(p) // 100] + world.num(p) % 100 for p in g.particles()]
+            E = embed_on_wires(dense(g.as_matrix()), wires, nw)
+            A = dense(g.as_circuit_matrix(fields))
+            if pid == "C01" and (A.shape != (2 ** nw,) * 2 or maxerr(A @ A.conj().T, I(A)) > TOL):
+                ctx.fail("mixed-dtype:as_circuit_matrix:not-unitary", dict(inp, gate=i), "unitary", maxerr(A @ A.conj().T, I(A)))
+            if pid == "C02" and maxerr(A, E) > TOL:
+                ctx.fail("mixed-dtype:as_circuit_matrix:differs-from-embedded-matrix", dict(inp, gate=i), "gate matrix on its wires", maxerr(A, E))
+            R = E @ R
+        C = qib.Circuit(gates)
+        M = dense(C.as_matrix(fields))
+        if pid == "C01" and (M.shape != (2 ** nw,) * 2 or maxerr(M @ M.conj().T, I(M)) > TOL):
+            ctx.fail("mixed-dtype:circuit:matrix-not-unitary", inp, "unitary", maxerr(M @ M.conj().T, I(M)))
+        if pid == "C02" and maxerr(M, R) > TOL:
+            ctx.fail("mixed-dtype:circuit:matrix-differs-from-ordered-product", inp, "G_k ... G_1 (numpy embedding)", maxerr(M, R))
+        if pid == "C03":
+            Mi = dense(C.inverse().as_matrix(fields))
+            if maxerr(Mi @ M, I(M)) > TOL or maxerr(Mi, R.conj().T) > TOL:
+                ctx.fail("mixed-dtype:circuit:inverse-does-not-invert", inp, "C.inverse() C = 1", maxerr(Mi @ M, I(M)))
+    except Exception as e:
+        ctx.fail("mixed-dtype:circuit:raises", inp, "circuit matrices evaluate", repr(e)[:300])
+
+
+def mixed_dtype_checks(ctx, pid):
+    ctx.rules.append("mixed element types: multiplexers (1-3 controls; one- and two-wire targets) whose targets report matrices of different "
+                     "dtypes - user matrices of int64/32/16/8, uint8, bool, float32, longdouble, complex64 entries, float64 (H, Ry, "
+                     "PrepareGate, controlled-H, X, Z), complex128 (S, T, Y, Rz, Rx, ISwap, Rzz) - every ordered pair of types, an integer / "
+                     "bool / single-precision first block followed by every order of three further types, the integer block at every "
+                     "position, the single non-integer block at every index of eight; controlled gates over each type and around mixed "
+                     "multiplexers, nested multiplexers, inverse() of each, circuits of three such gates in every order (all oracles of "
+                     "the property; no PRNG)")
+    for inp in mixed_dtype_inputs(ctx.thorough):
+        ctx.count("mixed_dtype_" + ("circuit" if len(inp["gates"]) > 1 else inp["gates"][0]["k"]))
+        check_mixed_dtype(ctx, pid, inp)
+        if pid != "C16" or len(inp["gates"]) == 1:
+            ctx.nontriv(("mixed-dtype", repr(inp["gates"])[:3000]))
+
+
 # =============================================================================== C03, circuit level
 def gen_circuit(rng, thorough):
     """a circuit of 2..8 bound gates (gate trees of <= 3 wires, depth <= 2) on a register of 2..5 qubits"""
@@ -2708,6 +2951,8 @@ def replay(ctx, pid, data):
         check_wide_control(ctx, inp)
     elif inp["what"] == "layout":
         check_layout(ctx, pid, inp)
+    elif inp["what"] == "mixed-dtype":
+        check_mixed_dtype(ctx, pid, inp)
     elif inp["what"] == "fresh-arrays":
         check_fresh_arrays(ctx, pid, inp)
     elif inp["what"] == "constructor-arrays":
